@@ -535,6 +535,12 @@ example : verdict (unify 16 16 [] (.tuple [.record [⟨0, false, .prim .num⟩],
       (.tuple [.record [⟨0, false, .prim .num⟩, ⟨1, false, .prim .num⟩], .record [⟨0, false, .prim .num⟩]])) = some (.error []) := by
   decide +kernel
 
+/-- the converse of soundness fails even for IDENTICAL types (so there is no `C03_unify_error_means_clash`): `TypeAlias(A)` against
+`TypeAlias(A)` and `Unknown` against `Unknown` fall through both tables to `TypeMismatch` (typing.rs resolves aliases and replaces
+`Unknown` by fresh variables before it asks) -/
+example : verdict (unify 8 8 [] (.alias 0) (.alias 0)) = some (.error [.mismatch]) ∧
+    verdict (unify 8 8 [] .unknown .unknown) = some (.error [.mismatch]) := by decide +kernel
+
 /-- non-vacuity of the strict fragment: `(?0) -> [float]` against `(float) -> ?1` binds both, nothing lenient is involved;
 and the occurs check refuses `?0 := [?0]` -/
 example : verdict (unify 16 16 [] (.fn (.var 0) (.array (.prim .num))) (.fn (.prim .num) (.var 1))) = some (.ok .ident) ∧
